@@ -1,4 +1,5 @@
 import NmVerif.Eval.Eval
+import NmVerif.Eval.Cast
 import NmVerif.Lemmas.Addressing
 import NmVerif.Props.C01
 import NmVerif.Props.C07
@@ -440,5 +441,72 @@ example : Reduce.ValidAxis [2,3].length (-1) := by decide
 example : (Reduce.accumulate (· + ·) (Arr.iota [2,3]) (-1)).get [1,2] = some 12 := by decide
 example : (ufunc3 (fun c x y => if c = 0 then y else x) (Arr.iota [3]) (Arr.iota [2,3]) (Arr.iota [1])).map
     (fun u => (u.shape, u.get [1,0], u.get [1,2])) = some ([2,3], some 0, some 5) := by decide
+
+/-! ## element types: evaluation into a container of another element type
+
+  `evalIntoCast cast` / `evalFreshCast cast` (Eval/Cast.lean) mirror the copy loop when the result's element type is not
+  the view's: the assignment is the implicit conversion `cast`.  The correspondence run (harness/h_c10mx.cpp: bare
+  eval(view) with the older resolver and array::fn over every operand-kind pairing x element-type pairs) ties "the resolvers
+  choose the view's element type" (`cast = id`) to the code; the seeded change C10-5 is an instance of `cast` = truncation. -/
+section cast
+variable {β : Type}
+
+/-- the converting copy loop is the plain copy loop of the converted view -/
+theorem evalIntoCast_eq_evalInto_map (cast : α → β) (out : NDA β) (v : Arr α) :
+    evalIntoCast cast out v = evalInto out (v.map cast) := rfl
+
+/-- evaluating into a supplied output of element type `β` and of the right shape: every element is EXACTLY the element-wise
+    conversion of the view's element (both layouts) -/
+theorem evalIntoCast_elem (cast : α → β) (out : NDA β) (v : Arr α) (hw : out.WF) (hsh : out.shape = v.shape)
+    (hs : Pos v.shape) (j : Idx) (hj : InShape j v.shape) :
+    (evalIntoCast cast out v).shape = v.shape ∧ (evalIntoCast cast out v).get? j = some (cast (v.get j)) :=
+  evalInto_eq_view out (v.map cast) hw hsh hs j hj
+
+/-- a wrong-shaped output of any element type is left untouched -/
+theorem evalIntoCast_mismatch_unchanged (cast : α → β) (out : NDA β) (v : Arr α) (h : out.shape ≠ v.shape) :
+    evalIntoCast cast out v = out :=
+  evalInto_mismatch_unchanged out (v.map cast) h
+
+/-- a library-allocated result of a (narrower or wider) element type `β` holds exactly the element-wise conversion -/
+theorem evalFreshCast_elem [Inhabited β] (cast : α → β) (cm : Bool) (v : Arr α) (hs : Pos v.shape)
+    (j : Idx) (hj : InShape j v.shape) :
+    (evalFreshCast cast cm v).shape = v.shape ∧ (evalFreshCast cast cm v).get? j = some (cast (v.get j)) :=
+  evalFresh_eq_view cm (v.map cast) hs j hj
+
+/-- a result container of the view's own element type (what both resolvers build: `element_t = get_element_type_t<view>`)
+    is cast-free: it is the plain evaluation … -/
+theorem evalFreshCast_id [Inhabited α] (cm : Bool) (v : Arr α) : evalFreshCast id cm v = evalFresh cm v := rfl
+
+/-- … so every element of the view is preserved -/
+theorem eval_same_type_preserves [Inhabited α] (cm : Bool) (v : Arr α) (hs : Pos v.shape) (j : Idx) (hj : InShape j v.shape) :
+    (evalFreshCast id cm v).shape = v.shape ∧ (evalFreshCast id cm v).get? j = some (v.get j) :=
+  evalFreshCast_elem id cm v hs j hj
+
+/-- the evaluated array equals the view at `j` iff the conversion fixes that element: a narrowing result type is
+    observable exactly at the elements the conversion changes -/
+theorem evalFreshCast_preserves_iff [Inhabited α] (cast : α → α) (cm : Bool) (v : Arr α) (hs : Pos v.shape)
+    (j : Idx) (hj : InShape j v.shape) :
+    (evalFreshCast cast cm v).get? j = some (v.get j) ↔ cast (v.get j) = v.get j := by
+  rw [(evalFreshCast_elem cast cm v hs j hj).2]
+  exact ⟨fun h => Option.some.inj h, fun h => by rw [h]⟩
+
+/-- elements in quarter units (6 = 1.5): the view add(fixed double, dynamic int) of the seeded change C10-5 -/
+private def quarters : Arr Int := ⟨[2,3], fun i => match i with | [a, b] => 6 + 4 * (3 * a + b) + b | _ => 0⟩
+/-- double → int of a value given in quarter units, back in quarter units -/
+private def truncQ (q : Int) : Int := 4 * (q.tdiv 4)
+
+example : (evalFreshCast id false quarters).data = [6, 11, 16, 18, 23, 28] := by decide
+example : (evalFreshCast truncQ false quarters).data = [4, 8, 16, 16, 20, 28] := by decide
+example : (evalFreshCast truncQ true quarters).data = [4, 16, 8, 20, 16, 28] := by decide
+example : (evalIntoCast truncQ ({ shape := [2,3], colMajor := false, data := [9,9,9,9,9,9] } : NDA Int) quarters).get? [1,1] =
+    some (truncQ (quarters.get [1,1])) :=
+  (evalIntoCast_elem truncQ _ quarters (by simp [NDA.WF, prod]) rfl (by decide) [1,1] (by decide)).2
+example : (evalIntoCast truncQ ({ shape := [3,2], colMajor := false, data := [9,9,9,9,9,9] } : NDA Int) quarters).data =
+    [9,9,9,9,9,9] := by decide
+example : Pos quarters.shape ∧ InShape [1,2] quarters.shape := by decide
+/-- the narrowed result differs from the view at [0,0] (1.5 → 1) and agrees at [0,2] (4.0) -/
+example : ¬ (evalFreshCast truncQ false quarters).get? [0,0] = some (quarters.get [0,0]) := by decide
+example : (evalFreshCast truncQ false quarters).get? [0,2] = some (quarters.get [0,2]) := by decide
+end cast
 
 end NmVerif.Props.C10
